@@ -13,6 +13,8 @@ import (
 	ethtypes "github.com/ethereum/go-ethereum/core/types"
 	"github.com/ethereum/go-ethereum/crypto"
 
+	"github.com/haqq-network/haqq/crypto/ethsecp256k1"
+	testtx "github.com/haqq-network/haqq/testutil/tx"
 	evmtypes "github.com/haqq-network/haqq/x/evm/types"
 )
 
@@ -358,6 +360,32 @@ func c18Exec(c Case) (outs []string, fails []Failure, tags []string) {
 						if gs, e := re.GetSender(chain); e != nil || gs != s1 {
 							fl("C18:message-sender:reused-message", fmt.Sprintf("a message first holding another transaction reports the sender %s (%v) after UnmarshalBinary, the signature recovers %s", gs, e, s1))
 						}
+					}
+				}
+			}
+			if e1 == nil && !(typ == 0 && kv["unprot"] == "1") {
+				// a message that already carries a signature (of every other key in turn: both recovery ids occur) is signed
+				// again, by this key, with the message's own Sign — what comes out must be the transaction this key signs
+				// (ECDSA signing is deterministic): same hash, same signature values, same sender
+				for d := 1; d < 8; d++ {
+					prev, e0 := ethtypes.SignNewTx(c18Key((vmIdx(kv["key"])+d)%8), signer, inner)
+					re := &evmtypes.MsgEthereumTx{}
+					if e0 != nil || re.FromEthereumTx(prev) != nil {
+						continue
+					}
+					re.From = s1.Hex()
+					if e := re.Sign(signer, testtx.NewSigner(&ethsecp256k1.PrivKey{Key: crypto.FromECDSA(key)})); e != nil {
+						fl("C18:re-signed-message", "signing a message that already carries a signature fails: "+e.Error())
+						break
+					}
+					tags = append(tags, "re-signed")
+					rtx := re.AsTransaction()
+					rs, e := ethtypes.Sender(signer, rtx)
+					if rtx.Hash() != tx.Hash() || re.Hash != tx.Hash().Hex() || e != nil || rs != s1 {
+						pv, _, _ := prev.RawSignatureValues()
+						nv, _, _ := rtx.RawSignatureValues()
+						fl("C18:re-signed-message", fmt.Sprintf("a message holding the transaction signed by another key (V=%s) and then signed by this key unwraps to hash %s, V=%s, sender %s (%v); the transaction this key signs has hash %s, V=%s, sender %s", pv, rtx.Hash(), nv, rs, e, tx.Hash(), v, s1))
+						break
 					}
 				}
 			}
